@@ -157,6 +157,8 @@ class C18(object):
                 op["overwrite"] = rnd.random() < 0.5   # save into the group that is already there
             if fam == "cf_hdf" and kind == "save":
                 op["flipzeros"] = rnd.random() < 0.3
+            if fam == "cf_text" and kind == "save":
+                op["permute_titles"] = rnd.random() < 0.3
             if fam == "pars" and kind == "resave":
                 op["via_indexer"] = rnd.random() < 0.4    # the file goes through indexer.loadpars / savepars
             if fam == "cf_hdf" and kind == "load":
@@ -499,6 +501,12 @@ class C18(object):
                 continue
             if op["op"] == "save":
                 payload = self.make_payload(fam, op["seed"])
+                if op.get("permute_titles") and fam == "cf_text" and st is not None and st["ack"] is not None and len(st["ack"]["cols"]) > 1:
+                    # the table written before, with its columns in another order (as it comes back from an HDF5 file)
+                    cols_ = list(st["ack"]["cols"])
+                    random.Random(op["seed"]).shuffle(cols_)
+                    payload = {"cols": cols_, "pars": st["ack"].get("pars", {})}
+                    counts["resaves_with_permuted_titles"] += 1
                 if op.get("flipzeros") and fam == "cf_hdf" and st is not None and st["ack"] is not None and not st["dirty"]:
                     # the same table again, only the signs of its zeros changed (a column multiplied by -1)
                     payload = {"cols": [[t_, [(-x_ if x_ == 0 else x_) for x_ in v_]] for t_, v_ in st["ack"]["cols"]],
@@ -565,6 +573,16 @@ class C18(object):
                         with contextlib.redirect_stdout(io.StringIO()):
                             ix = M["indexing"].indexer()
                             ix.loadpars(path(op["slot"]))
+                            retyped = {}
+                            for k_, v_ in sorted(st["ack"]["pars"].items()):
+                                # the user (or a GUI that hands back floats) sets an attribute to an equal value of another type /
+                                # the other sign of zero: what is saved is what the indexer holds
+                                if op["seed"] % 3 == 0 and isinstance(v_, int) and abs(v_) < 2 ** 52:
+                                    setattr(ix, k_, float(v_))
+                                    retyped[k_] = float(v_)
+                                elif op["seed"] % 3 == 1 and isinstance(v_, float) and v_ == 0:
+                                    setattr(ix, k_, -v_)
+                                    retyped[k_] = -v_
                             ix.savepars(p2)
                             pr2 = M["parameters"].parameters()
                             pr2.loadparameters(p2)
@@ -572,7 +590,7 @@ class C18(object):
                         viol = V("resave-raises", "step %d: indexer.loadpars / savepars of a parameter file raised %s: %s" % (step, type(e2).__name__, e2))
                         break
                     counts["parameter_files_through_an_indexer"] += 1
-                    e = self.cmp_pars(st["ack"]["pars"], {k_: v_ for k_, v_ in pr2.parameters.items() if k_ in st["ack"]["pars"]},
+                    e = self.cmp_pars(dict(st["ack"]["pars"], **retyped), {k_: v_ for k_, v_ in pr2.parameters.items() if k_ in st["ack"]["pars"]},
                                       "step %d: parameter file loaded into an indexer and saved from it" % step)
                     if e is None and set(st["ack"]["pars"]) - set(pr2.parameters):
                         e = "step %d: parameters %s lost on the way through an indexer" % (step, sorted(set(st["ack"]["pars"]) - set(pr2.parameters)))
